@@ -186,7 +186,7 @@ def exact_value(net, arrs):
     """value of the 1-norm network (without exponent), product of norms; rejects near-zero values"""
     z = complex(einsum_value(carrs(arrs), ()))
     mag = magnitude(arrs)
-    if not abs(z) >= ZERO_REL * mag:
+    if z == 0 or not abs(z) >= ZERO_REL * mag:
         raise Reject("exact value below 1e-6 x product of norms")
     return z, mag
 
@@ -200,7 +200,7 @@ def exact_psi(net, arrs, sizes):
     psi = einsum_value(carrs(arrs), outer)
     n2 = float(np.sum(np.abs(psi) ** 2))
     mag = magnitude(arrs)
-    if not n2 >= 1e-12 * mag ** 2:
+    if n2 == 0 or not n2 >= 1e-12 * mag ** 2:
         raise Reject("norm below 1e-6 x product of norms")
     return psi, outer, n2, mag
 
@@ -261,8 +261,6 @@ def s_opts(draw, flavour):
         o["init"] = "default"
     if flavour == "hd1" and o["init"] == "ones":
         o["init"] = "default"
-    if flavour == "l1" and o["init"] == "ones":
-        o["init"] = "random"
     return o
 
 
@@ -347,6 +345,8 @@ def run_kwargs(flavour, o, tn, net, ctor_only=False):
     elif flavour == "l1":
         if o["init"] == "random":
             ctor["message_init_function"] = pos_fill(o["iseed"], cplx)
+        elif o["init"] == "ones":
+            ctor["message_init_function"] = lambda shape: np.ones(shape, dtype=complex if cplx else float)
     elif flavour == "d2":
         if o["init"] == "random":
             ctor["messages"] = psd_messages(tn, o["iseed"], cplx)
